@@ -48,7 +48,7 @@ BOUNDARY = [254.5, 255.5, 65535.5, -128.5, -129.5, 127.5, 32767.5,
 
 def gen_cases(tier, seed):
     rng = np.random.default_rng([seed, 116])
-    n = 24 if tier == 'quick' else 160
+    n = 24 if tier == 'quick' else 960
     return [{'seed': int(rng.integers(2 ** 31)),
              'n_files': 10 if tier == 'quick' else 14} for _ in range(n)]
 
